@@ -449,6 +449,30 @@ pub fn build_cli(case: &RCase) -> runner::basic::Cli {
     cli.retry = case.retry_cli.retry;
     cli.retry_after = case.retry_cli.after;
     cli.retry_tag_filter = case.retry_cli.filter.clone();
+    // Every other case goes the way a test binary does: the options are rendered as argv and parsed
+    // by the crate's own `cli::Opts` (absent options stay absent from argv).
+    if case.items.len() % 2 == 0 {
+        use clap::Parser as _;
+        let mut argv: Vec<String> = vec!["vlab".into()];
+        if let Some(c) = case.conc_cli {
+            argv.extend(["--concurrency".into(), c.to_string()]);
+        }
+        if case.fail_fast_cli {
+            argv.push("--fail-fast".into());
+        }
+        if let Some(r) = case.retry_cli.retry {
+            argv.extend(["--retry".into(), r.to_string()]);
+        }
+        if let Some(a) = case.retry_cli.after {
+            argv.extend(["--retry-after".into(), format!("{}ms", a.as_millis())]);
+        }
+        if let Some(f) = &case.retry_cli.filter {
+            argv.extend(["--retry-tag-filter".into(), crate::refmodel::render_tagexpr(f)]);
+        }
+        if let Ok(o) = cucumber::cli::Opts::<cucumber::cli::Empty, runner::basic::Cli, cucumber::cli::Empty>::try_parse_from(&argv) {
+            return o.runner;
+        }
+    }
     cli
 }
 
@@ -470,8 +494,10 @@ pub const QUIESCE_POLLS: usize = 16;
 pub fn prepare(case: &RCase) -> (LabParser, Arc<AtomicU64>) {
     with_lab(|l| {
         let log_hook = l.log_hook;
+        let span_hook = l.span_hook;
         *l = Lab::default();
         l.log_hook = log_hook;
+        l.span_hook = span_hook;
         l.plan = case.plan.clone();
         l.wn_plan = case.wn_plan.clone();
         if case.custom_classifier {
@@ -683,13 +709,21 @@ pub fn run_with(case: &RCase, sched: &mut Schedule<'_>, poll: &mut dyn FnMut(&mu
             sleeps_in_epoch += if long { 6 } else { 1 };
             continue;
         }
-        let (w, label) = with_lab(|l| {
+        let (w, label, dropped) = with_lab(|l| {
             let p = l.pending.remove(choice);
-            l.released.insert(p.id);
-            l.released_labels.insert(p.id, p.label.clone());
             l.activity += 1;
-            (p.waker, p.label)
+            if p.label.starts_with("span:") {
+                // pseudo-gate: releasing it drops the object a callback left alive (outside the borrow)
+                let i = l.held.iter().position(|(id, _)| *id == p.id);
+                let obj = i.map(|i| l.held.remove(i).1);
+                (p.waker, p.label, obj)
+            } else {
+                l.released.insert(p.id);
+                l.released_labels.insert(p.id, p.label.clone());
+                (p.waker, p.label, None)
+            }
         });
+        drop(dropped);
         quiescent.push(Quiescent { round, seq, at: Instant::now(), in_flight: in_flight.max(0) as usize, pending_labels: labels, action: label, branching: npend + extra, choice: raw_choice });
         w.wake();
     };
